@@ -105,6 +105,111 @@ pub fn run_with_wire<C: Cv>(prog: &Program, wire: &[u8]) -> (String, String) {
     }
 }
 
+/// The token stream a byte string presents to the decoder, following the layout the bytes themselves announce (their two counts):
+/// each token is decoded on its own with arkworks (validated, compressed). {"st":"ok","k":kind,"v":value} | {"st":"bad","k":kind} |
+/// {"st":"cut"} (input ends inside the token; nothing follows).  Counts are clamped to 1_000_000 for the model's 32-bit integers.
+pub fn tokenize<C: Cv>(bytes: &[u8]) -> (Vec<Value>, usize) {
+    use ark_serialize::CanonicalDeserialize;
+    let ptl = ser_c(&C::G::generator()).len();
+    let scl = ser_c(&Fr::<C>::zero()).len();
+    let mut toks = vec![];
+    let mut pos = 0usize;
+    // phases: 11 pt, 3 sc, len, L*, len, R*, 2 sc
+    let mut plan: Vec<&'static str> = vec![];
+    plan.extend(std::iter::repeat("pt").take(11));
+    plan.extend(std::iter::repeat("sc").take(3));
+    plan.push("lenL");
+    let mut i = 0usize;
+    let mut stage = 0; // 0: head+lenL, 1: L+lenR, 2: R+tail
+    loop {
+        if i >= plan.len() {
+            break;
+        }
+        let kind = plan[i];
+        i += 1;
+        let tl = match kind { "pt" => ptl, "sc" => scl, _ => 8 };
+        if bytes.len() - pos < tl {
+            toks.push(json!({"st": "cut"}));
+            return (toks, 0);
+        }
+        let sl = &bytes[pos..pos + tl];
+        pos += tl;
+        match kind {
+            "pt" => match C::G::deserialize_compressed(sl) {
+                Ok(p) => toks.push(json!({"st": "ok", "k": "pt", "v": enc_p::<C>(&p)})),
+                Err(_) => toks.push(json!({"st": "bad", "k": "pt"})),
+            },
+            "sc" => match Fr::<C>::deserialize_compressed(sl) {
+                Ok(f) => toks.push(json!({"st": "ok", "k": "sc", "v": enc_s::<C>(&f)})),
+                Err(_) => toks.push(json!({"st": "bad", "k": "sc"})),
+            },
+            _ => {
+                let mut b = [0u8; 8];
+                b.copy_from_slice(sl);
+                let n = u64::from_le_bytes(b);
+                let c = n.min(1_000_000) as usize;
+                toks.push(json!({"st": "ok", "k": "len", "val": c}));
+                // do not materialise absurd plans: the input cannot hold more tokens than it has bytes
+                let fit = c.min((bytes.len() - pos) / ptl + 1);
+                plan.extend(std::iter::repeat("pt").take(fit));
+                if fit < c {
+                    plan.push("eof");
+                }
+                if stage == 0 {
+                    if fit == c { plan.push("lenR"); }
+                    stage = 1;
+                } else {
+                    if fit == c { plan.push("sc"); plan.push("sc"); }
+                    stage = 2;
+                }
+            }
+        }
+        if i < plan.len() && plan[i] == "eof" {
+            // announced more elements than the input can hold: the next token is cut (or absent)
+            toks.push(json!({"st": "cut"}));
+            return (toks, 0);
+        }
+    }
+    (toks, bytes.len() - pos)
+}
+
+/// byte-level edits of an encoding (session runs)
+pub fn apply_bedits<C: Cv>(enc: &[u8], edits: &[BEdit]) -> Vec<u8> {
+    let mut b = enc.to_vec();
+    let ptl = ser_c(&C::G::generator()).len();
+    let scl = ser_c(&Fr::<C>::zero()).len();
+    // layout of the unmodified encoding
+    let head = 11 * ptl + 3 * scl;
+    let kl = if enc.len() >= head + 8 { u64::from_le_bytes(enc[head..head + 8].try_into().unwrap()) as usize } else { 0 };
+    let lay = token_layout::<C>(kl, kl);
+    for e in edits {
+        match e {
+            BEdit::Truncate { len } => b.truncate(*len.min(&b.len())),
+            BEdit::Bitflip { bit } => {
+                if !b.is_empty() {
+                    let k = bit % (b.len() * 8);
+                    b[k / 8] ^= 1 << (k % 8);
+                }
+            }
+            BEdit::Ffs { tok } => {
+                let t = tok % lay.len();
+                let off: usize = lay[..t].iter().map(|x| x.1).sum();
+                for k in off..(off + lay[t].1).min(b.len()) {
+                    b[k] = 0xff;
+                }
+            }
+            BEdit::Count { which, val } => {
+                let off = if *which == 0 { head } else { head + 8 + kl * ptl };
+                if off + 8 <= b.len() {
+                    b[off..off + 8].copy_from_slice(&val.to_le_bytes());
+                }
+            }
+            BEdit::Trail { n } => b.extend(std::iter::repeat(0u8).take(*n)),
+        }
+    }
+    b
+}
+
 fn token_layout<C: Cv>(k_l: usize, k_r: usize) -> Vec<(&'static str, usize)> {
     let pt = ser_c(&C::G::generator()).len();
     let sc = ser_c(&Fr::<C>::zero()).len();
